@@ -85,8 +85,14 @@ SessState(c) ==
 MsgIndex(c) == IF c.ep = "sess" THEN 3 ELSE 2
 
 \* sessions left registered: a stateless handler registers none; an addressed session stays what it was; a session
-\* created for a POST without id is closed again unless the POST has given it InitializeParams (#578 clean-up)
-Left(c, st) == IF c.ep = "nosid" /\ st.ip # "nil" THEN 1 ELSE 0
+\* created for a POST without id is closed again unless the POST has given it InitializeParams (#578 clean-up).
+\* Server.discover persists the request's metadata as InitializeParams only on a transport that can serve
+\* 2026-07-28: on a stateful endpoint it leaves the session as it was.
+Left(c, st) == IF c.ep = "nosid" /\ st.ip # "nil" /\ c.m # MDiscover THEN 1 ELSE 0
+\* A notification POSTed to a throw-away session (no id on a stateful handler and nothing that keeps the session; a
+\* stateless handler) is accepted with 202 and handed to the session while the handler already closes it: whether
+\* its handlers still run is a race the property does not speak about (observed: they do not).
+ThrowAwayNotif(c) == IsNotif(c.m) /\ c.ep \in {"nosid", "stateless"}
 
 \* header and body name the same version STRING
 SameVersion(c) ==
@@ -94,22 +100,33 @@ SameVersion(c) ==
   \/ (c.hv = "modern" /\ IsModernVer(c.bv) /\ MetaSupported(c.bv))
   \/ (c.hv = "unk_new" /\ IsModernVer(c.bv) /\ ~MetaSupported(c.bv))
 
-HExpected(c) ==
-  LET l == HLetter(c) IN
+\* the transport's own checks, in the code's order: the code of the refusal, or "pass" (the session sees the request)
+TransportVerdict(c) ==
+  LET sep == HeaderModern(c.hv) \/ BodyNamesVersion(c.bv) IN    \* servePOST runs its SEP-2575 checks
   \* StreamableHTTPHandler.ServeHTTP: a header below 2026-07-28 must name a supported version (plain 400)
-  IF c.hv = "unk_old" THEN HRefuse(c, 0, 0, 0)
-  \* servePOST: the SEP-2575 checks, when the header is >= 2026-07-28 OR the body's _meta names a version
-  ELSE IF (HeaderModern(c.hv) \/ BodyNamesVersion(c.bv)) /\ Stateful(c.ep) /\ c.m # MDiscover
-       THEN HRefuse(c, CUnsupportedVer, NLegacySupported, 0)           \* the stateful rejection, legacy versions listed
-  ELSE IF (HeaderModern(c.hv) \/ BodyNamesVersion(c.bv)) /\ c.hv \in {"absent"}
-       THEN HRefuse(c, CHeaderMismatch, 0, 0)                           \* header required
-  ELSE IF (HeaderModern(c.hv) \/ BodyNamesVersion(c.bv)) /\ ~BodyNamesVersion(c.bv)
-       THEN HRefuse(c, CInvalidParams, 0, 0)                            \* _meta protocolVersion missing
-  ELSE IF (HeaderModern(c.hv) \/ BodyNamesVersion(c.bv)) /\ ~SameVersion(c)
-       THEN HRefuse(c, CHeaderMismatch, 0, 0)                           \* header # body
-  \* the session
-  ELSE LET r == Step(SessState(c), l, MsgIndex(c)) IN
-       HObs(r.o.reply, r.o.code, r.o.nlist, r.o.code = CUnsupportedVer, r.o.h, Left(c, r.st))
+  IF c.hv = "unk_old" THEN "plain400"
+  \* servePOST, when the header is >= 2026-07-28 OR the body's _meta names a version:
+  ELSE IF sep /\ Stateful(c.ep) /\ c.m # MDiscover THEN "stateful"     \* -32022, the legacy versions listed
+  ELSE IF sep /\ c.hv = "absent" THEN "mismatch"                       \* header required
+  ELSE IF sep /\ ~BodyNamesVersion(c.bv) THEN "nometa"                 \* _meta protocolVersion missing: -32602
+  ELSE IF sep /\ ~SameVersion(c) THEN "mismatch"                       \* header # body: -32020
+  ELSE "pass"
+SessionStep(c) == Step(SessState(c), HLetter(c), MsgIndex(c))
+
+HExpected(c) ==
+  LET tv == TransportVerdict(c) IN
+  CASE tv = "plain400" -> HRefuse(c, 0, 0, 0)
+    [] tv = "stateful" -> HRefuse(c, CUnsupportedVer, NLegacySupported, 0)
+    [] tv = "mismatch" -> HRefuse(c, CHeaderMismatch, 0, 0)
+    [] tv = "nometa"   -> HRefuse(c, CInvalidParams, 0, 0)
+    [] OTHER -> LET r == SessionStep(c) IN
+                HObs(r.o.reply, r.o.code, r.o.nlist, r.o.code = CUnsupportedVer,
+                     IF ThrowAwayNotif(c) THEN {} ELSE r.o.h, Left(c, r.st))
+\* the observation agrees with the code-shaped table (drift otherwise)
+HAgrees(c, o) ==
+  \/ o = HExpected(c)
+  \/ /\ ThrowAwayNotif(c) /\ TransportVerdict(c) = "pass"
+     /\ o = [HExpected(c) EXCEPT !.h = SessionStep(c).o.h]
 
 \* ------------------------------------------------------------ the property
 \* ms: the endpoint serves protocol 2026-07-28 at all (Lifecycle!VerSupported)
